@@ -107,6 +107,18 @@ struct Program {
     threads: Vec<Vec<TOp>>,
 }
 
+impl Program {
+    /// highest preemption bound explored for this program (four threads with
+    /// bound 3 do not finish within the thorough tier's time cap)
+    fn max_bound(&self) -> usize {
+        if self.threads.len() >= 4 {
+            2
+        } else {
+            3
+        }
+    }
+}
+
 fn rec(name: u8, ty: Ty, val: u8, ttl: u32) -> Rec {
     Rec { name, ty, val, ttl }
 }
@@ -177,6 +189,7 @@ fn programs(tier: Tier) -> Vec<Program> {
             vec![TOp::Prune],
         ],
     });
+    v.extend(generated_programs(tier));
     if tier == Tier::Thorough {
         v.push(Program {
             name: "three writers re-inserting the same record || (none)",
@@ -190,6 +203,63 @@ fn programs(tier: Tier) -> Vec<Program> {
         });
     }
     v
+}
+
+/// Every multiset of `k` single-operation threads over a 9-operation alphabet
+/// (k = 2 quick, also 3 thorough), from an empty cache and from a cache that
+/// holds expired records and is over its size.
+fn generated_programs(tier: Tier) -> Vec<Program> {
+    let ops: Vec<(&str, TOp)> = vec![
+        ("ins n1 A ttl3", TOp::Ins(rec(1, Ty::A, 1, 3))),
+        ("ins n1 A ttl5", TOp::Ins(rec(1, Ty::A, 1, 5))),
+        ("ins n1 TXT", TOp::Ins(rec(1, Ty::Txt, 1, 4))),
+        ("ins n2 A", TOp::Ins(rec(2, Ty::A, 1, 3))),
+        ("get n1 ANY", TOp::Get(1, Q::Any)),
+        ("get n1 A", TOp::Get(1, Q::A)),
+        ("get n2 A", TOp::Get(2, Q::A)),
+        ("prune", TOp::Prune),
+        ("insert_all n2", TOp::InsAll(vec![rec(2, Ty::A, 1, 3), rec(2, Ty::Txt, 1, 3)])),
+    ];
+    let setups: Vec<(&str, usize, Vec<Op>)> = vec![
+        ("empty cache, size 2", 2, vec![]),
+        (
+            "expired records and over size 1",
+            1,
+            vec![
+                Op::Ins(rec(1, Ty::A, 1, 1)),
+                Op::Ins(rec(3, Ty::A, 1, 1)),
+                Op::Ins(rec(2, Ty::Txt, 1, 5)),
+                Op::Ins(rec(3, Ty::Txt, 1, 5)),
+                Op::Adv(2000),
+            ],
+        ),
+    ];
+    let mut out = Vec::new();
+    let n = ops.len();
+    let mut multisets: Vec<Vec<usize>> = Vec::new();
+    for i in 0..n {
+        for j in i..n {
+            multisets.push(vec![i, j]);
+            if tier == Tier::Thorough {
+                for k in j..n {
+                    multisets.push(vec![i, j, k]);
+                }
+            }
+        }
+    }
+    for (sname, desired, setup) in &setups {
+        for m in &multisets {
+            let label = m.iter().map(|&i| ops[i].0).collect::<Vec<_>>().join(" || ");
+            let name: &'static str = Box::leak(format!("generated [{sname}]: {label}").into_boxed_str());
+            out.push(Program {
+                name,
+                desired: *desired,
+                setup: setup.clone(),
+                threads: m.iter().map(|&i| vec![ops[i].1.clone()]).collect(),
+            });
+        }
+    }
+    out
 }
 
 fn rr_of(x: &Rec) -> ResourceRecord {
@@ -516,9 +586,26 @@ fn explore_program(p: &Program, preemption_bound: usize, max_secs: u64) -> LoomR
 }
 
 fn run_loom(ctx: &Ctx, report: &mut Report) {
-    let bound = ctx.tier.pick(2, 3);
+    let tier_bound = ctx.tier.pick(2, 3);
     let mut rows = Vec::new();
-    for p in programs(ctx.tier) {
+    // iterative context bounding: every program with 0, 1, 2 (3) preemptions;
+    // a program whose exploration hits the time cap at one bound is not run
+    // at a higher one
+    let mut capped_programs: BTreeSet<&'static str> = BTreeSet::new();
+    let runs: Vec<(Program, usize)> = programs(ctx.tier)
+        .into_iter()
+        .flat_map(|p| {
+            let top = tier_bound.min(p.max_bound());
+            // the generated programs are run at the top bound only (their
+            // threads hold one critical section each)
+            let from = if p.name.starts_with("generated") { top } else { 0 };
+            (from..=top).map(move |b| (p.clone(), b))
+        })
+        .collect();
+    for (p, bound) in runs {
+        if capped_programs.contains(p.name) {
+            continue;
+        }
         let t0 = std::time::Instant::now();
         let secs = ctx.tier.pick(20, 150);
         // loom panics on its own internal failures (deadlock, too many
@@ -575,6 +662,7 @@ fn run_loom(ctx: &Ctx, report: &mut Report) {
                 let capped = t0.elapsed().as_secs() >= secs;
                 if capped {
                     report.exhaustive = false;
+                    capped_programs.insert(p.name);
                 }
                 rows.push(json!({
                     "program": p.name,
@@ -584,7 +672,8 @@ fn run_loom(ctx: &Ctx, report: &mut Report) {
                     "preemption_bound": bound,
                     "schedules": r.schedules,
                     "distinct_outcomes": r.outcomes.len(),
-                    "schedules_with_outcome_not_matching_any_sequential_order(informational)": r.non_linearizable,
+                    "schedules_with_outcome_not_matching_any_sequential_order": r.non_linearizable,
+                    "non_sequential_outcome_is_a_violation": p.threads.iter().all(|t| t.iter().all(|o| !matches!(o, TOp::InsAll(_)))),
                     "duration_cap_hit": capped,
                 }));
                 let mut seen = BTreeSet::new();
@@ -646,7 +735,7 @@ pub fn run(ctx: &Ctx) -> i32 {
         &alphabet,
         &plans,
         &mut report,
-        ctx.tier.pick(30.0, 420.0),
+        ctx.tier.pick(240.0, 3000.0),
     );
     if report.violations.is_empty() {
         run_loom(ctx, &mut report);
